@@ -37,7 +37,16 @@ def candidates(path):
                     continue  # inverting an error check just breaks everything; not informative
                 out.append((path, i, m.start(), m.end(), rep, code.strip()[:120]))
     return out
+import threading
+_cache_lock = threading.Lock()
+def guard_disk():
+    # every mutant rebuilds the packages that depend on the mutated one: the go build cache grows by ~0.5-1 GB per
+    # mutant even with -trimpath; empty it when the disk gets tight
+    with _cache_lock:
+        if shutil.disk_usage("/").free < 40 * 2**30:
+            subprocess.run(["go", "clean", "-cache"], env=ENV)
 def run_one(job):
+    guard_disk()
     n, pid, (path, li, a, b, rep, text) = job
     root = "/tmp/verif-ms-%d-%d" % (os.getpid(), n)
     res = dict(property=pid, file=path, line=li + 1, text=text, repl=rep)
